@@ -20,11 +20,12 @@ var advanceSteps = []time.Duration{time.Millisecond, 100 * time.Millisecond, 499
 
 // Profile weights the event alphabet.
 type Profile struct {
-	Kinds      []string // weighted by repetition
-	MaxEvents  int
-	MinEvents  int
-	Prefix     int  // maximal length of the valid prefix (deliveries)
-	HostileIDs bool // SHIP IDs from the hostile string generator
+	Kinds       []string // weighted by repetition
+	MaxEvents   int
+	MinEvents   int
+	Prefix      int  // maximal length of the valid prefix (deliveries)
+	StartFaults bool // write faults may be armed before the connections start
+	HostileIDs  bool // SHIP IDs from the hostile string generator
 	// server trust classes to draw from: "paired", "auto", "none"
 	Trust []string
 }
@@ -80,7 +81,7 @@ func genEvent(t *rapid.T, p Profile) Event {
 		ev.Reason = rapid.SampledFrom([]string{"", "User close", "datagram"}).Draw(t, "reason")
 	case EvSpineWrite:
 		ev.N = rapid.IntRange(0, 99).Draw(t, "n")
-	case EvFailWrite:
+	case EvFailWrite, EvFailOnce:
 		ev.N = rapid.IntRange(1, 4).Draw(t, "k")
 	case EvApprove, EvCancel:
 		if rapid.IntRange(0, 4).Draw(t, "userSide") != 0 {
@@ -92,6 +93,17 @@ func genEvent(t *rapid.T, p Profile) Event {
 
 func genScript(t *rapid.T, p Profile) Script {
 	sc := Script{Cfg: genConfig(t, p)}
+	if p.StartFaults {
+		// a write fault that is armed before the connections start (so that the very first writes can fail)
+		for s := 0; s < 2; s++ {
+			switch rapid.IntRange(0, 11).Draw(t, "startFault") {
+			case 0:
+				sc.Cfg.FailStart[s] = rapid.IntRange(1, 3).Draw(t, "failStart")
+			case 1:
+				sc.Cfg.FailOnceStart[s] = rapid.IntRange(1, 6).Draw(t, "failOnceStart")
+			}
+		}
+	}
 	// valid prefix: the man in the middle lets the real exchange run for j
 	// deliveries (with the user approving somewhere if the server waits for
 	// trust), so that every handshake state is reached for both roles
@@ -134,8 +146,8 @@ func kinds(pairs ...any) []string {
 // Adversarial profile: the peer can do anything (C01, C04, C08, C11).
 var profAdversarial = Profile{
 	Kinds: kinds(EvStep, 10, EvDeliver, 3, EvDrain, 2, EvInject, 8, "data", 3, EvAdvance, 5, EvApprove, 2, EvCancel, 2, EvDrop, 1, EvDup, 1,
-		EvSetPaired, 1, EvSetAllow, 1, EvCloseLocal, 1, EvTransportError, 1, EvPropagate, 2, EvSpineWrite, 2, EvFailWrite, 1, EvSetAuto, 1),
-	MinEvents: 0, MaxEvents: 30, Prefix: 20, HostileIDs: false, Trust: []string{"none", "none", "none", "paired", "auto"},
+		EvSetPaired, 1, EvSetAllow, 1, EvCloseLocal, 1, EvTransportError, 1, EvPropagate, 2, EvSpineWrite, 2, EvFailWrite, 1, EvFailOnce, 1, EvBurst, 1, EvSetAuto, 1),
+	MinEvents: 0, MaxEvents: 30, Prefix: 20, HostileIDs: false, StartFaults: true, Trust: []string{"none", "none", "none", "paired", "auto"},
 }
 
 // Scheduling-only profile (C03): both endpoints are the code under test and
